@@ -21,9 +21,10 @@ class DriverTimeout(RuntimeError):
 
 
 class Response:
-    __slots__ = ("status", "headers", "body", "after")
+    __slots__ = ("status", "headers", "body", "after", "reused")
 
     def __init__(self, status, headers, body, after=b""):
+        self.reused = False  # the request went out on a connection that had carried earlier requests
         self.status = status  # int, 0 if no parsable response arrived
         self.headers = headers  # list[(name_lower, value)]
         self.body = body  # bytes
@@ -86,6 +87,8 @@ class WebDriver:
         the web layer.  Cookies issued before are stale afterwards."""
         from mitmproxy.tools.web import app as webapp
 
+        self.drop_connection()
+
         async def go():
             self._listen(webapp.Application(self.master, False))
             self.master.app = self.app
@@ -97,11 +100,30 @@ class WebDriver:
 
     # --- client --------------------------------------------------------------------------------------
     def request(self, method: str, target: str, headers=(), body: bytes = b"", ws_wait: float = 0.25,
-                after_upgrade=None) -> Response:
-        return self.loop.run_until_complete(self._request(method, target, headers, body, ws_wait, after_upgrade))
+                after_upgrade=None, conn: str = "close") -> Response:
+        """conn = "close": one request on its own connection (Connection: close).
+        conn = "new": open a fresh keep-alive connection (dropping a held one) and hold it afterwards.
+        conn = "keep": send on the held keep-alive connection if it is still usable, else like "new"."""
+        return self.loop.run_until_complete(self._request(method, target, headers, body, ws_wait, after_upgrade, conn))
 
-    async def _request(self, method, target, headers, body, ws_wait, after_upgrade):
-        lines = [f"{method} {target} HTTP/1.1", "Host: 127.0.0.1:%d" % self.port, "Connection: close"]
+    _held = None  # (reader, writer) of the client's keep-alive connection
+
+    def drop_connection(self):
+        async def go():
+            if self._held is not None:
+                try:
+                    self._held[1].close()
+                except Exception:
+                    pass
+                self._held = None
+                await asyncio.sleep(0)
+                await asyncio.sleep(0)
+
+        self.loop.run_until_complete(go())
+
+    async def _request(self, method, target, headers, body, ws_wait, after_upgrade, conn="close"):
+        lines = [f"{method} {target} HTTP/1.1", "Host: 127.0.0.1:%d" % self.port,
+                 "Connection: close" if conn == "close" else "Connection: keep-alive"]
         has_cl = False
         for k, v in headers:
             if k.lower() == "content-length":
@@ -113,12 +135,29 @@ class WebDriver:
         if (body or method not in ("GET", "HEAD", "OPTIONS")) and not has_cl:
             lines.append(f"Content-Length: {len(body)}")
         raw = ("\r\n".join(lines) + "\r\n\r\n").encode("utf-8", "surrogateescape") + body
-        try:
-            r, w = await asyncio.wait_for(asyncio.open_connection("127.0.0.1", self.port), TIMEOUT)
-        except asyncio.TimeoutError:
-            raise DriverTimeout("connect")
-        except OSError:
-            return Response(0, [], b"")
+        reused = False
+        r = w = None
+        if conn == "keep" and self._held is not None:
+            r, w = self._held
+            self._held = None
+            if r.at_eof() or w.is_closing():
+                r = w = None
+            else:
+                reused = True
+        elif self._held is not None and conn != "close":
+            try:
+                self._held[1].close()
+            except Exception:
+                pass
+            self._held = None
+        if r is None:
+            try:
+                r, w = await asyncio.wait_for(asyncio.open_connection("127.0.0.1", self.port), TIMEOUT)
+            except asyncio.TimeoutError:
+                raise DriverTimeout("connect")
+            except OSError:
+                return Response(0, [], b"")
+        hold = False
         try:
             w.write(raw)
             await w.drain()
@@ -128,6 +167,13 @@ class WebDriver:
                 if not chunk:
                     break
                 buf += chunk
+            if reused and not buf:
+                # the server had already closed the idle connection: not an answer to this request
+                try:
+                    w.close()
+                except Exception:
+                    pass
+                return await self._request(method, target, headers, body, ws_wait, after_upgrade, "new")
             head, _, rest = buf.partition(b"\r\n\r\n")
             m = _STATUS.match(head)
             status = int(m.group(1)) if m else 0
@@ -183,16 +229,26 @@ class WebDriver:
             body_out = rest
             if any(k == "transfer-encoding" and "chunked" in v for k, v in hdrs):
                 body_out = _dechunk(rest)
-            return Response(status, hdrs, body_out, after)
+            if conn != "close" and status not in (0, 101) and (nobody or chunked or clen is not None) \
+                    and not any(k == "connection" and "close" in v.lower() for k, v in hdrs) and not r.at_eof():
+                hold = True
+            resp = Response(status, hdrs, body_out, after)
+            resp.reused = reused
+            return resp
         except asyncio.TimeoutError:
             raise DriverTimeout(f"{method} {target}")
         except ConnectionError:
+            if reused:
+                return await self._request(method, target, headers, body, ws_wait, after_upgrade, "new")
             return Response(0, [], b"")
         finally:
-            try:
-                w.close()
-            except Exception:
-                pass
+            if hold:
+                self._held = (r, w)
+            else:
+                try:
+                    w.close()
+                except Exception:
+                    pass
             # let the server side notice the close (WebSocket on_close etc.)
             await asyncio.sleep(0)
             await asyncio.sleep(0)
